@@ -8,7 +8,7 @@ from .. import gen, probe, monitors_sle
 from ..dense import dense, mat
 from ..drive import call
 from ..shard import Workload
-from ._common import arm_tt
+from ._common import arm_light
 
 P = 'C07'
 tt = None
@@ -17,7 +17,7 @@ sle = None
 
 def setup(ctx):
     global tt, sle
-    tt = arm_tt(ctx)
+    tt = arm_light(ctx)
     sle = monitors_sle.install()
 
 
